@@ -236,7 +236,10 @@ func createPromise(tags map[string]string, promiseCmd *t_aio.CreatePromiseComman
 		})
 
 		if err != nil {
+			// without an answer from the router we cannot know whether the promise
+			// needs a task, creating it anyway would silently drop its invocation
 			slog.Warn("failed to match promise", "cmd", promiseCmd, "err", err)
+			return nil, t_api.NewError(t_api.StatusAIOMatchError, err)
 		}
 
 		if taskCmd != nil && (err != nil || !completion.Router.Matched) {
